@@ -1266,7 +1266,11 @@ async fn handle_signal_request<'a>(
             // It isn't possible to receive a stop event twice since it gets
             // debounced in the main signal handler.
             stopwatch.pause();
-            interval_sleep.as_mut().pause();
+            // The interval sleep can still be paused from an earlier stop if
+            // the unit was being terminated when the run was continued.
+            if !interval_sleep.is_paused() {
+                interval_sleep.as_mut().pause();
+            }
             super::os::job_control_child(child, crate::signal::JobControlEvent::Stop);
             // The receiver being dead probably means the main thread panicked
             // or similar.
@@ -1277,9 +1281,14 @@ async fn handle_signal_request<'a>(
         SignalRequest::Continue => {
             // It's possible to receive a resume event right at the beginning of
             // test execution, so debounce it.
+            //
+            // The interval sleep is checked separately: it is not paused if the
+            // stop request was handled while the unit was being terminated.
+            if interval_sleep.is_paused() {
+                interval_sleep.as_mut().resume();
+            }
             if stopwatch.is_paused() {
                 stopwatch.resume();
-                interval_sleep.as_mut().resume();
                 super::os::job_control_child(child, crate::signal::JobControlEvent::Continue);
             }
             HandleSignalResult::JobControl
